@@ -116,6 +116,11 @@ func corpusFor(c *Ctx) []*corpus.Program {
 		progs = append(progs, corpus.F6(2, 1)...)
 		progs = append(progs, corpus.F6(3, 4)...)
 		progs = append(progs, corpus.F4(int64(c.Seed)+1, 300, 8)...)
+		progs = append(progs, corpus.FG(2, 2, 1, 0, 1)...)
+		progs = append(progs, corpus.FG(3, 2, 1, 0, 2)...)
+		progs = append(progs, corpus.FG(3, 2, 0, 2, 1)...)
+		progs = append(progs, corpus.FG(2, 3, 2, 2, 2)...)
+		progs = append(progs, corpus.FW()...)
 	} else {
 		progs = append(progs, corpus.F1(1, 1, true, false)...)
 		progs = append(progs, corpus.F1(2, 2, true, false)...)
@@ -125,6 +130,10 @@ func corpusFor(c *Ctx) []*corpus.Program {
 		progs = append(progs, corpus.F5(2, 9)...)
 		progs = append(progs, corpus.F6(2, 1)...)
 		progs = append(progs, corpus.F6(3, 3)...)
+		progs = append(progs, corpus.FG(2, 2, 2, 0, 1)...)
+		progs = append(progs, corpus.FG(3, 2, 2, 2, 2)...)
+		progs = append(progs, corpus.FG(3, 2, 0, 0, 4)...)
+		progs = append(progs, corpus.FW()...)
 	}
 	if v := os.Getenv("VERIF_CORPUS_LIMIT"); v != "" {
 		var n int
